@@ -6,7 +6,7 @@ arrays.FLOAT_AS[0] = "val"
 PROPERTY = "C04"
 LEVEL = "proof"
 CONTRACT_MODULES = ["contracts.c04"]
-CARRIERS = ["batchie.core.BayesianModel.add_observations", "batchie.models.sparse_combo.SparseDrugCombo._add_observations"]
+CARRIERS = ["batchie.core.BayesianModel.add_observations", "batchie.models.sparse_combo.SparseDrugCombo._add_observations", "batchie.cli.train_model.main@trains_on"]
 NATIVE = "c04.py"
 B = "batchie."
 READ_FREE_ENTRIES = [
@@ -28,6 +28,7 @@ READ_FREE_ENTRIES = [
 TECHNIQUE = ("contract-based: read-frame conditions (no read of Screen.observations / single_treatment_effects reachable) decided by a "
              "modular effect inference over the real source; training-data contracts of the model entry points discharged by z3")
 EXPLANATION = (
+    "cli/train_model.main gives the model, at most once, exactly the object returned by data.subset_observed() - never the screen itself - and nothing when no row is observed (proved as a region of main). "
     "(a) Read frames: for score_chunk, select_next_plate, the scores holder, the three scorers, the pairwise distance "
     "computation, every predict_* of both posterior-sample types and of models.main, the policy, the unique filter, the "
     "view algebra and the three command lines that score / select / compute distances, no attribute read of observations, "
